@@ -1,4 +1,5 @@
 pub mod emu;
+pub mod program;
 pub mod run;
 pub mod stats;
 pub mod stepcase;
